@@ -386,3 +386,72 @@ func VerifH_C10_api_session_transition() {
 // the session of VerifH_C16_api_session_refused_upsert seen from C10: a session whose first modification is refused
 // and whose second is accepted yields the previous content with exactly the accepted modification applied
 func VerifH_C10_api_session_refused_then_accepted() { VerifH_C16_api_session_refused_upsert() }
+
+// a session whose only call is refused makes no modification: the file is byte-identical afterwards. One label per
+// kind of refused call (creation calls are refused in sessions by this version of the library).
+func VerifH_C10_api_session_only_refused_call() {
+	vrt.LoopBound(100000)
+	ver := []uint8{0, 2}[vrt.Choice(2)]
+	fw, err := CreateForWrite("c10f.h5", CreateTruncate, WithSuperblockVersion(ver))
+	vrt.AssertNoErr(err, "create-ok")
+	d, err := fw.CreateDataset("/a", Int32, []uint64{2})
+	vrt.AssertNoErr(err, "create-a-ok")
+	vrt.AssertNoErr(d.Write([]int32{vrt.I32(), 2}), "write-a-ok")
+	vrt.AssertNoErr(d.WriteAttribute("k", int32(5)), "attr-ok")
+	_, err = fw.CreateGroup("/g")
+	vrt.AssertNoErr(err, "group-ok")
+	vrt.AssertNoErr(fw.Close(), "close-ok")
+	before, err := os.ReadFile("c10f.h5")
+	vrt.AssertNoErr(err, "raw-read-ok")
+
+	s, err := OpenForWrite("c10f.h5", OpenReadWrite)
+	vrt.AssertNoErr(err, "session-open-ok")
+	kind := vrt.Choice(8)
+	var cerr error
+	switch kind {
+	case 0:
+		_, cerr = s.CreateDataset("/n", Int32, []uint64{1})
+	case 1:
+		_, cerr = s.CreateDataset("/g/n", Int32, []uint64{1})
+	case 2:
+		_, cerr = s.CreateGroup("/h")
+	case 3:
+		cerr = s.CreateHardLink("/l", "/a")
+	case 4:
+		cerr = s.CreateSoftLink("/l", "/a")
+	case 5:
+		_, cerr = s.CreateDataset("/a", Int32, []uint64{1})
+	case 6:
+		_, cerr = s.OpenDataset("/zz")
+	default:
+		h, err := s.OpenDataset("/a")
+		vrt.AssertNoErr(err, "open-dataset-ok")
+		cerr = h.WriteAttribute("big", "0123456789012345678901234567890123456789012345678901234567890123456789")
+	}
+	vrt.AssertNoErr(s.Close(), "close-ok")
+	vrt.Covered("refused-call-session-closed")
+	if cerr == nil {
+		return // accepted: other harnesses compare the content
+	}
+	after, err := os.ReadFile("c10f.h5")
+	vrt.AssertNoErr(err, "raw-read-ok")
+	same := len(after) == len(before)
+	if same {
+		for i := range before {
+			if after[i] != before[i] {
+				same = false
+				break
+			}
+		}
+	}
+	switch kind {
+	case 0, 1, 5:
+		vrt.Assert(same, "refused-create-dataset-leaves-file-byte-identical")
+	case 2:
+		vrt.Assert(same, "refused-create-group-leaves-file-byte-identical")
+	case 4:
+		vrt.Assert(same, "refused-soft-link-leaves-file-byte-identical")
+	default:
+		vrt.Assert(same, "refused-call-leaves-file-byte-identical")
+	}
+}
